@@ -197,6 +197,7 @@ def run_text(shard):
                                       'C[C@H]1CC[C@@H](C)CC1', 'OC[C@H]1O[C@H](O)[C@H](O)[C@@H](O)[C@@H]1O', 'C~[Fe]', '[C]~[Pd]', '[B]~[Pd]', '[P]~[Pd]', '[S](~[Cu])~[Cu]', '[C](~[Pd])~[Pd]', 'C(~[Pd])~[Pd]', '[C].[Pd]',
                                       'CC(O)=[C@]=C(N)F', 'OC(C)=[C@@]=C(N)F', 'CC(Cl)=[C@]=C(C)Br', 'FC(Cl)=[C@]=C(Br)I', 'C[C@H](O)CC.C[C@@H](O)CC', 'C[C@]12CCC(=O)C=C1CC[C@@H]1[C@@H]2CC[C@]2(C)[C@@H](O)CC[C@@H]12')]
     rows += [('interdependent', s) for s in inputs.interdependent_family()]
+    rows += [('isotopic hydrogen atom on a stereo element', s) for s in inputs.isoh_family()]
     rows += [('corpus', s) for s in M.corpus(stride=32 if tier == 'quick' else 4)]
     for i, (fam, s) in enumerate(rows):
         if i % nsh != k:
